@@ -66,8 +66,8 @@ fn tx_power_step<C: Sx126xVariant>(mut r: Sx126x<MockSpi, MockIv, C>, hp: bool, 
     let l = spi();
     // the last two transactions are SetPaConfig and SetTxParams
     kani::assert(l.n >= 2, "C13/C17: SetPaConfig and SetTxParams are issued");
-    let pa = &l.t[l.n - 2];
-    let tp = &l.t[l.n - 1];
+    let pa = tx(l.n - 2);
+    let tp = tx(l.n - 1);
     kani::assert(pa.w[0] == 0x95 && pa.wlen == 5 && pa.w[4] == 0x01, "C13: SetPaConfig framing (paLut = 1)");
     kani::assert(tp.w[0] == 0x8E && tp.wlen == 3, "C13: SetTxParams framing");
     kani::assert(pa.w[3] == if hp { 0 } else { 1 }, "C13: deviceSel matches the PA in use");
@@ -178,8 +178,10 @@ fn rx_payload_126x<const B: usize>(implicit: bool) {
     let l = spi();
     let status = l.script[0][0];
     let (rx_len, offset) = (l.script[0][1], l.script[0][2]);
+    // universally quantified buffer position (none when the buffer is empty)
     let k: usize = kani::any();
-    kani::assume(k < B);
+    kani::assume(B == 0 || k < B);
+    let canary_ok = |buf: &[u8; B]| B == 0 || buf[k] == canary;
     match res {
         Ok(n) => {
             let n = n as usize;
@@ -187,23 +189,26 @@ fn rx_payload_126x<const B: usize>(implicit: bool) {
             // implicit header: the configured length register (second transaction), else the reported length
             let want = if implicit { l.script[1][0] as usize } else { rx_len as usize };
             kani::assert(n == want, "C18: returned length is the length the chip reported (implicit header: the configured length)");
-            let rd = &l.t[l.n - 1];
+            let rd = tx(l.n - 1);
             kani::assert(rd.w[0] == 0x1E && rd.w[1] == offset && rd.wlen == 3, "C18: ReadBuffer at the offset the chip reported");
             kani::assert(rd.rlen == n, "C18: exactly the packet's bytes are fetched");
-            if k >= n {
+            if B == 0 {
+                // nothing to compare
+            } else if k >= n {
                 kani::assert(buf[k] == canary, "C18: bytes beyond the packet must be left untouched");
             } else if n > MAXRB {
                 if k == l.big_j {
                     kani::assert(buf[k] == l.big_v, "C18: packet bytes come from the chip's buffer");
                 }
             } else {
-                kani::assert(buf[k] == l.script[l.n - 1][k % MAXRB], "C18: packet bytes come from the chip's buffer");
+                kani::assert(buf[k] == script_at(l.n - 1, k), "C18: packet bytes come from the chip's buffer");
             }
-            kani::cover!(n == B && B > 0, "packet fills the buffer exactly");
+            kani::cover!(n == B && B > 0, "info: packet fills the buffer exactly");
+            kani::cover!(true, "witness: a packet was fetched");
         }
         Err(e) => {
-            kani::assert(buf[k] == canary, "C18: a failed fetch must not touch the buffer");
-            kani::cover!(matches!(e, RadioError::PayloadSizeMismatch(_, _)), "chip reports more bytes than the buffer holds");
+            kani::assert(canary_ok(&buf), "C18: a failed fetch must not touch the buffer");
+            kani::cover!(matches!(e, RadioError::PayloadSizeMismatch(_, _)), "info: chip reports more bytes than the buffer holds");
             let _ = status;
         }
     }
